@@ -218,9 +218,9 @@ def run(ctx):
 
 def run_(ctx):
     rng = gen.rng_for(ctx.seed, 'c04')
-    for k in range(28 if ctx.quick else 500):
+    for k in range(ctx.n(28, 500)):
         segy_route(ctx, rng, k)
-    for k in range(30 if ctx.quick else 600):
+    for k in range(ctx.n(30, 600)):
         numpy_route(ctx, rng, k)
 
 
